@@ -796,7 +796,8 @@ pub fn wait_programs(tier: &str) -> (Vec<Program>, String) {
     v.extend(fam::wait_rounds());
     v.extend(fam::wait_loop_family(tier != "quick"));
     v.extend(fam::dl_enabler_family());
-    let level = level + "; WAIT-rounds: one Notify / park token / condvar reused for 2-3 acknowledged rounds; WAIT-loop: `while !flag { wait }` with relaxed flags, 1-2 flags, 1-2 notifier threads, store/notify in either order, condvar with two waiters; DL-enabler: a deadlock reached only if a third thread's independent send / notify / unpark is scheduled early";
+    v.extend(fam::cv_two_waiters_family());
+    let level = level + "; CV-two: two single-shot waiters, one or two bare notify_one, release by flag + notify_all (no deadlock: outcome sets compared); WAIT-rounds: one Notify / park token / condvar reused for 2-3 acknowledged rounds; WAIT-loop: `while !flag { wait }` with relaxed flags, 1-2 flags, 1-2 notifier threads, store/notify in either order, condvar with two waiters; DL-enabler: a deadlock reached only if a third thread's independent send / notify / unpark is scheduled early";
     (v, level)
 }
 
